@@ -60,15 +60,18 @@ def run(ctx):
     ctx.cover['maps_that_may_return_none'] = sorted(k for k, v in MAY_NONE.items() if v)
     for name in maps:
         check_map(ctx, m.functions[name])
-    rule_squeeze(ctx, 'C16.R3')
-    rule_projections(ctx, 'C16.R4')
+    ctx.rule(rule_squeeze, 'C16.R3')
+    ctx.rule(rule_projections, 'C16.R4')
     # "defined for every existing cycle": the label vector the maps work on numbers the cycles of every column
     # 0..K-1 (a counter carried over between columns leaves labels that own no samples)
     from . import c12, cyclevec
-    c12.rule_labelling(ctx, 'C16.R5', cyclevec.get(ctx, False, False), 'return_good=False')
-    c12.rule_canonical_inputs(ctx, 'C16.R5')
+    ctx.rule(c12.rule_labelling, 'C16.R5', cyclevec.get(ctx, False, False), 'return_good=False')
+    ctx.rule(c12.rule_canonical_inputs, 'C16.R5')
     from . import c19
-    c19.rule_ensure_sites(ctx, 'C16.R5', only={cyclevec.GCV})
+    ctx.rule(c19.rule_ensure_sites, 'C16.R5', only={cyclevec.GCV})
+    # the subset and chain vectors the maps work on: -1 / running counter, empty selection -> empty chain vector
+    from . import c15
+    ctx.rule(c15.rule_counters, 'C16.R6')
     rule_dead_contiguity_guards(ctx)
 
 
